@@ -61,7 +61,7 @@ void h_asm_two_operand()
 void h_two_pass()
 {
   AsmContext ctx_obj; AsmContext *ctx = &ctx_obj; ctx->address = nondet_int(); ctx->tokens.line = nondet_int();
-  ctx->cpu_type = CPU_TYPE_MSP430; ctx->memory.endian = 0; ctx->optimize = 0; ctx->pass_1_write_disable = 0; ctx->msp430_cpu4 = 0;
+  ctx->cpu_type = CPU_TYPE_MSP430; ctx->memory.endian = 0; ctx->optimize = 0; ctx->pass_1_write_disable = 1; ctx->msp430_cpu4 = 0;
   __CPROVER_assume(ctx->address >= 0 && ctx->address < 0x10000 && (ctx->address & 1) == 0);
   __CPROVER_assume(ctx->tokens.line >= 0 && ctx->tokens.line < 100000);
   int a0 = ctx->address; g_flag_addr = a0;
